@@ -18,6 +18,7 @@ import (
 	"vh/gen"
 	"vh/ref"
 	"vh/stats"
+	"vh/timecase"
 )
 
 var R = stats.New("C07")
@@ -417,6 +418,48 @@ func TestQuietLine(t *testing.T) { rapid.Check(t, propQuiet) }
 var propParallel = stats.ParallelProp(R, "parallel", genFrame, checkFrame, 6)
 
 func TestParallel(t *testing.T) { rapid.Check(t, propParallel) }
+
+// Histories: MSM frames of several constellations through ONE handler, in the orders and with the gaps real
+// receivers produce (epochs milliseconds apart, rollovers, illegal timestamps, damaged and runt frames in
+// between) - what a handler has seen before must not make it crash on what comes next.
+type HistCase struct {
+	History timecase.Case `json:"history"`
+}
+
+func checkHist(c HistCase, o *stats.Obs) error {
+	frames := c.History.Frames()
+	for _, lv := range []slog.Level{slog.LevelDebug, slog.LevelInfo} {
+		h := handler.New(c.History.Start(), lv)
+		for i, f := range frames {
+			var inner error
+			p, timedOut := drive.Guard(watchdog, func() {
+				m, _ := h.GetMessage(append([]byte{}, f...))
+				if m != nil {
+					inner = exerciseMessage(m)
+				}
+			})
+			if timedOut {
+				o.Key = "hang"
+				return fmt.Errorf("message %d of a history of %d MSM frames through one handler (level %v) did not return: %x", i, len(frames), lv, f)
+			}
+			if p != "" {
+				o.Key = "panic"
+				return fmt.Errorf("panic on message %d of a history of %d MSM frames through one handler (level %v), frame %x: %s", i, len(frames), lv, f, p)
+			}
+			if inner != nil {
+				o.Key = "no-error-text"
+				return inner
+			}
+		}
+	}
+	o.NonTrivial = len(frames) >= 2
+	o.Class("msm-history")
+	return nil
+}
+
+var propHist = stats.Prop(R, "history", func(t *rapid.T) HistCase { return HistCase{History: timecase.Gen(t, true)} }, checkHist)
+
+func TestHistory(t *testing.T) { rapid.Check(t, propHist) }
 
 func TestReplay(t *testing.T) { R.Replay(t) }
 
